@@ -188,8 +188,29 @@ func runR062(c *core.Ctx) {
 			for _, l := range x.Lhs {
 				if sel, ok := core.Unparen(l).(*ast.SelectorExpr); ok && sel.Sel.Name == "missingFields" {
 					if core.GuardedByFact(inf, rmpar, x, func(f core.Fact) bool {
-						call, ok := core.Unparen(f.Expr).(*ast.CallExpr)
-						if !ok || f.Val {
+						if f.Val {
+							return false
+						}
+						e := core.Unparen(f.Expr)
+						// `if excluded := t.IsKeyExcluded(field); !excluded`: the flag is what its only definition says
+						if v, isVar := core.ObjOf(inf, e).(*types.Var); isVar && !v.IsField() {
+							var defs []ast.Expr
+							ast.Inspect(rm.Body, func(y ast.Node) bool {
+								if as, okA := y.(*ast.AssignStmt); okA && len(as.Lhs) == len(as.Rhs) {
+									for i, l2 := range as.Lhs {
+										if core.ObjOf(inf, l2) == v {
+											defs = append(defs, as.Rhs[i])
+										}
+									}
+								}
+								return true
+							})
+							if len(defs) == 1 {
+								e = core.Unparen(defs[0])
+							}
+						}
+						call, ok := e.(*ast.CallExpr)
+						if !ok {
 							return false
 						}
 						cf := core.Callee(inf, call)
